@@ -416,10 +416,19 @@ func RuleF3(r *Report, p *Program) {
 			// earlier reads on this path must all have been rejected by the filter (keep waiting)
 			for _, ri := range reads[:len(reads)-1] {
 				e := pa.Events[ri]
+				consulted := false
 				for k, v := range pa.State.Bools {
-					if strings.HasPrefix(k, "dyn:") && strings.Contains(k, e.Result.String()+"#0") && v {
-						bad = "loop continues after the filter accepted a datagram"
+					if strings.HasPrefix(k, "dyn:") && strings.Contains(k, e.Result.String()+"#0") {
+						consulted = true
+						if v {
+							bad = "loop continues after the filter accepted a datagram"
+						}
 					}
+				}
+				// ... by the FILTER: the driver itself discards nothing it has read (which datagram passes as the
+				// addressed controller's, and fails the call if it is malformed, is the caller's decision)
+				if rerr, has := pa.State.Bools["isnil("+e.Result.String()+"#2)"]; has && rerr && !consulted {
+					bad = "a datagram that was read without error is dropped without being shown to the filter under [" + cut(pa.State.Describe(), 160) + "]"
 				}
 			}
 		}
@@ -437,7 +446,7 @@ func RuleF4(r *Report, p *Program) {
 			return
 		}
 		w := NewWalker(p)
-		w.LoopFuel = 1
+		w.LoopFuel = 8 // a table lookup may be a (binary) search loop; the field loop is cut by the assumption below
 		w.Inline = inlineHelpers([]*ssa.Package{pkgOf(fn)}, func(f *ssa.Function) bool {
 			return f == fn || (f.Object() != nil && f.Object().Exported())
 		})
